@@ -1849,11 +1849,18 @@ impl Melda {
             let data_r = self.data.read().expect("cannot_acquire_data_for_reading");
             //let merged = data_r.read_object(&winner)?;
             let merged = self.read_object_at_revision(uuid, &rt_r, &winner)?;
+            let chosen_is_deletion = winner.is_deleted();
             drop(winner);
             drop(rt_r);
             drop(data_r);
             drop(docs_r);
-            self.update_object(uuid, merged)?;
+            if chosen_is_deletion {
+                // Resolving in favour of a deletion must keep the object deleted (not
+                // re-assert the {"_deleted":true} placeholder as a live value)
+                self.delete_object(uuid)?;
+            } else {
+                self.update_object(uuid, merged)?;
+            }
         }
         let docs_r = self
             .documents
